@@ -162,6 +162,27 @@ theorem gen_random_locus_denotes {ss : SymSet} {x : Ind} (h : WF ss x) :
     exact (reach_iff_reaches h h.best l).symm
   exact ⟨hk, he, hr, fun l hl => reach_inside h h.best l ((he l).1 hl)⟩
 
+/-- `for (i = begin(); i != end(); ++i)` – `i_mep::basic_iterator` as extracted: the frontier set
+    starts as `{best()}`, `*i` is the gene at its least locus, `++i` replaces that locus by its
+    arguments, `end()` is the empty frontier – visits, on a well-formed individual, exactly the active
+    loci (the model's `exons`), each ONCE, in increasing `operator<` order.  (This is the loop of
+    `mutation`, `blocks()`, …: "mutation affects only exons".) -/
+theorem gen_exon_iter_denotes {ss : SymSet} {x : Ind} (h : WF ss x) :
+    Gen.exonIter.known = true ∧
+    (∀ l, l ∈ Gen.exonIter.run Gen.locusLess x ↔ l ∈ exons x) ∧
+    (Gen.exonIter.run Gen.locusLess x).Pairwise
+      (fun a b => a.idx < b.idx ∨ (a.idx = b.idx ∧ a.cat < b.cat)) ∧
+    (Gen.exonIter.run Gen.locusLess x).Nodup := by
+  have hk : Gen.exonIter.known = true := by decide
+  obtain ⟨h1, h2⟩ := frontier_iff_reaches (less := lessBy Gen.locusLess) gen_locus_less h
+  have hrun : Gen.exonIter.run Gen.locusLess x
+      = frontierFrom (lessBy Gen.locusLess) x (x.rows * x.cols) [x.best] [] := by
+    simp only [Frontier.run, hk, if_true]
+  rw [hrun]
+  refine ⟨hk, fun l => ?_, h2, ?_⟩
+  · rw [h1 l]; exact (reach_iff_reaches h h.best l).symm
+  · exact h2.imp (fun {a b} hab heq => by subst heq; exact LLt.irrefl _ hab)
+
 theorem wfb_iff (ss : SymSet) (x : Ind) : WFb ss x = true ↔ WF ss x := by
   unfold WFb
   simp only [Bool.and_eq_true, decide_eq_true_eq]
@@ -1313,6 +1334,10 @@ example : Gen.wedge.run ((ss.terminals 0).map (·.weight)) 99 = some 0 ∧
     Gen.wedge.run ((ss.terminals 0).map (·.weight)) 300 = none ∧
     Gen.wedge.pick (ss.terminals 0) 100 = some erc := by decide
 
+example := roulette_in_container (ss.terminals 0) 100 (by decide)
+example := wedge_zero_sum [⟨7, 0, [], false, 0⟩, ⟨8, 0, [], false, 0⟩] 0 (by decide)
+example := mutation_env_irrelevant ss e92 ⟨4, 2, 1⟩ rfl (fun _ _ => false) (fun _ _ => true) (d0 4) a
+
 /-- `roulette_in_cat`'s hypotheses are satisfiable: `d0` is admissible at category 0 -/
 example : TDrawOK ss 0 (d0 4 0 0) ∧ GDrawOK ss 0 1 4 (d0 4 0 0) := by
   have h := d0_ok 4 1 (by decide) 0 (by decide) 0 (by decide)
@@ -1324,6 +1349,10 @@ example : TDrawOK ss 0 (d0 4 0 0) ∧ GDrawOK ss 0 1 4 (d0 4 0 0) := by
 example : Gen.randomLocus.run Gen.locusLess a =
     [⟨0, 0⟩, ⟨1, 0⟩, ⟨2, 0⟩, ⟨2, 1⟩, ⟨3, 0⟩, ⟨3, 0⟩, ⟨3, 0⟩, ⟨3, 0⟩, ⟨3, 1⟩, ⟨3, 1⟩] := by decide
 example := gen_random_locus_denotes (ss := ss) (x := a) ((wfb_iff _ _).1 (by decide))
+
+/-- the extracted iterator on `a`: each active locus once -/
+example : Gen.exonIter.run Gen.locusLess a = [⟨0, 0⟩, ⟨1, 0⟩, ⟨2, 0⟩, ⟨2, 1⟩, ⟨3, 0⟩, ⟨3, 1⟩] := by decide
+example := gen_exon_iter_denotes (ss := ss) (x := a) ((wfb_iff _ _).1 (by decide))
 
 /-! the `gen_*` theorems at concrete values (their hypotheses are satisfiable) -/
 example := gen_ctor_denotes ss e41 2 (d0 4) a (fun _ _ => default) (by decide) 1 0 (by decide) (by decide)
